@@ -5,7 +5,7 @@
    properties the comparison leaves the payloads out (known finding K2). *)
 From Coq Require Import List NArith Bool String Lia.
 Import ListNotations.
-From Indi Require Import Base.Sx Msg.Equality Driver.Switch Driver.Model Driver.Props Driver.Events Driver.Write
+From Indi Require Import Base.Sx Msg.Equality Msg.RegOk Driver.Switch Driver.Model Driver.Props Driver.Events Driver.Write
      Client.Model Client.Props Client.Update System.Converge.
 
 (* ---------- mirrors ---------- *)
@@ -96,13 +96,14 @@ Proof. induction ms as [|m ms IH]; intros mi W; [exact W|]. cbn [feed fold_left]
 
 (* ---------- a message about one property touches no other entry ---------- *)
 Definition about (dn vn : str) (m : msg) : Prop :=
-  attr_of "device" (ma m) = Some dn /\ attr_of "name" (ma m) = Some vn.
+  attr_of "device" (ma m) = Some dn /\ attr_of "name" (ma m) = Some vn /\
+  spec_flag_of (mk m) = Some (false, true).          (* a message drivers send, clients do not *)
 
 Lemma apply_frame mi m dn vn dn' vn' :
   about dn vn m -> mirror_wf mi -> (dn' <> dn \/ vn' <> vn) ->
   get_vec (mirror_of (apply mi m)) dn' vn' = get_vec mi dn' vn'.
 Proof.
-  intros [Hd Hn] W Hne.
+  intros (Hd & Hn & _) W Hne.
   destruct (def_kind (mk m)) as [k|] eqn:Dk.
   - apply (def_frame mi m k dn dn' vn' Dk Hd). destruct Hne as [H|H]; [now left|right].
     unfold vec_of_def. cbn [cv_name]. rewrite Hn. exact H.
@@ -182,12 +183,12 @@ Qed.
 Lemma def_msg_about d g v : about (d_name d) (v_name v) (def_msg d g v).
 Proof.
   unfold about. destruct (vec_on g v) eqn:Hon.
-  - destruct (def_msg_attrs d g v Hon) as (A & B & _). auto.
-  - destruct (del_msg_attrs d g v Hon) as (A & B & _). auto.
+  - destruct (def_msg_attrs d g v Hon) as (A & B & C). rewrite C. repeat split; auto. destruct (v_kind v); reflexivity.
+  - destruct (del_msg_attrs d g v Hon) as (A & B & C). rewrite C. repeat split; auto.
 Qed.
 
 Lemma set_msg_about d g v m : set_msg d g v = Some m -> about (d_name d) (v_name v) m.
-Proof. unfold set_msg. destruct (vec_on g v); [|discriminate]. intros [= <-]. split; reflexivity. Qed.
+Proof. unfold set_msg. destruct (vec_on g v); [|discriminate]. intros [= <-]. repeat split; try reflexivity. cbn [mk]. destruct (v_kind v); reflexivity. Qed.
 
 Lemma shown_kind d g v : vec_on g v = true -> NoDup (map e_name (v_elems v)) -> cv_kind (shown d g v) = v_kind v.
 Proof. intros H1 H2. rewrite (shown_fields d g v H1 H2). reflexivity. Qed.
@@ -645,7 +646,7 @@ Theorem on_vec_synced d n f mi :
   (forall g v, v_name (fst (f g v)) = v_name v) ->
   (forall g v mi', In (g, v) (all_vecs d) -> v_name v = n -> mirror_wf mi' -> entry_ok mi' d g v -> step_ok d g mi' v (f g v)) ->
   dev_ok (fst (on_vec d n f)) /\ synced (feed mi (pubs (snd (on_vec d n f)))) (fst (on_vec d n f)) /\
-  d_name (fst (on_vec d n f)) = d_name d.
+  d_name (fst (on_vec d n f)) = d_name d /\ Forall (about (d_name d) n) (pubs (snd (on_vec d n f))).
 Proof.
   intros [Dn Dv] [Sw Se So] Hname Hstep. unfold on_vec.
   pose proof (upd_vec_spec d (d_groups d) n f Hname Dn) as [A B].
@@ -667,7 +668,7 @@ Proof.
       split; [exact (so_entry _ _ _ _ _ S)|]. split; [exact (so_wf _ _ _ _ _ S)|exact (so_nh _ _ _ _ _ S)].
     - exists []. split; [reflexivity|]. split; [reflexivity|]. split; [constructor|]. intros g v Hgv Hn. exfalso. exact (find_gv_none _ _ Fg g v Hgv Hn). }
   destruct TR as (ms & -> & Hnone & Hab & Hhit).
-  split; [|split; [|reflexivity]].
+  split; [|split; [|split; [reflexivity|exact Hab]]].
   - constructor; [rewrite NM; exact Dn|]. intros g' v' Hin. rewrite AV in Hin. apply in_map_iff in Hin. destruct Hin as ([g v] & E & Hin).
     cbn [fst snd] in E. injection E as <- <-. unfold hit. destruct (named n v) eqn:En; [|exact (Dv g v Hin)].
     unfold named in En. apply str_eqb_spec in En. exact (proj2 (Hhit g v Hin En)).
@@ -886,19 +887,25 @@ Qed.
 
 Theorem step_synced d o mi :
   dev_ok d -> synced mi d -> op_typed d o ->
-  dev_ok (fst (step d o)) /\ synced (feed mi (pubs (snd (step d o)))) (fst (step d o)) /\ d_name (fst (step d o)) = d_name d.
+  dev_ok (fst (step d o)) /\ synced (feed mi (pubs (snd (step d o)))) (fst (step d o)) /\ d_name (fst (step d o)) = d_name d /\
+  Forall (fun m => exists vn, about (d_name d) vn m) (pubs (snd (step d o))).
 Proof.
   intros D S T. pose proof D as [Dn Dv]. pose proof S as [Sw Se So].
+  assert (OV : forall n f, (dev_ok (fst (on_vec d n f)) /\ synced (feed mi (pubs (snd (on_vec d n f)))) (fst (on_vec d n f)) /\
+                            d_name (fst (on_vec d n f)) = d_name d /\ Forall (about (d_name d) n) (pubs (snd (on_vec d n f)))) ->
+                           dev_ok (fst (on_vec d n f)) /\ synced (feed mi (pubs (snd (on_vec d n f)))) (fst (on_vec d n f)) /\
+                           d_name (fst (on_vec d n f)) = d_name d /\ Forall (fun m => exists vn, about (d_name d) vn m) (pubs (snd (on_vec d n f)))).
+  { intros n f (A & B & C & E). split; [exact A|]. split; [exact B|]. split; [exact C|]. eapply Forall_impl; [|exact E]. intros m Hm. exists n. exact Hm. }
   destruct o as [vn i x|vn i x|vn sel|vn st|vn b|gk b|vn i b|m]; cbn [step].
-  - apply on_vec_synced; try assumption; [intros; apply assign_name|].
+  - apply OV. apply on_vec_synced; try assumption; [intros; apply assign_name|].
     intros g v mi' Hin Hn W' E'. destruct (Dv g v Hin). apply assign_ok; auto. exact (T g v Hin Hn).
-  - apply on_vec_synced; try assumption; [intros; apply set_value_name|].
+  - apply OV. apply on_vec_synced; try assumption; [intros; apply set_value_name|].
     intros g v mi' Hin Hn W' E'. destruct (Dv g v Hin). apply set_value_ok; auto. exact (T g v Hin Hn).
-  - apply on_vec_synced; try assumption; [intros; apply selected_loop_name|].
+  - apply OV. apply on_vec_synced; try assumption; [intros; apply selected_loop_name|].
     intros g v mi' Hin Hn W' E'. destruct (Dv g v Hin). apply selected_ok; auto.
-  - apply on_vec_synced; try assumption; [intros g v; rewrite publish_set_name; reflexivity|].
+  - apply OV. apply on_vec_synced; try assumption; [intros g v; rewrite publish_set_name; reflexivity|].
     intros g v mi' Hin Hn W' E'. destruct (Dv g v Hin). apply with_state_ok; auto.
-  - apply (on_vec_synced d vn (enable_vec_action d b) mi); try assumption; [intros; apply enable_vec_name|].
+  - apply (OV vn (enable_vec_action d b)). apply (on_vec_synced d vn (enable_vec_action d b) mi); try assumption; [intros; apply enable_vec_name|].
     intros g v mi' Hin Hn W' E'. destruct (Dv g v Hin). apply enable_vec_ok; auto.
   - (* a whole group *)
     assert (Nh : forall g v, In (g, v) (all_vecs d) -> no_handlers v) by (intros g v H; exact (proj2 (Dv g v H))).
@@ -917,7 +924,10 @@ Proof.
     assert (LV : forall gv, In gv L -> vwf (snd gv) /\ no_handlers (snd gv)).
     { intros gv Hin. unfold L in Hin. apply in_map_iff in Hin. destruct Hin as ([g v] & <- & Hi). apply filter_In in Hi. destruct Hi as [Hi _]. exact (Dv g v Hi). }
     destruct (redefine_many true d L mi Sw LNd LV) as (A & B & C).
-    split; [|split; [|reflexivity]].
+    assert (AB : Forall (fun m => exists vn, about (d_name d) vn m) (flat_map (seg true d) L)).
+    { apply Forall_forall. intros m Hm. apply in_flat_map in Hm. destruct Hm as (gv & _ & Hm). exists (v_name (snd gv)).
+      pose proof (seg_about true d gv) as SA. rewrite Forall_forall in SA. exact (SA m Hm). }
+    split; [|split; [|split; [reflexivity|exact AB]]].
     + constructor; [rewrite NM; exact Dn|]. intros g' v Hin. rewrite AV in Hin. apply in_map_iff in Hin. destruct Hin as ([g v0] & E & Hi).
       cbn [fst snd] in E. injection E as <- <-. exact (Dv g v0 Hi).
     + constructor; [exact A| |].
@@ -941,23 +951,27 @@ Proof.
         exact (proj2 (Dv g v Hin)). }
       assert (All : dev_ok (fst (def_all d (map (fun gv => v_name (snd gv)) (all_vecs d)) d [])) /\
                     synced (feed mi (pubs (snd (def_all d (map (fun gv => v_name (snd gv)) (all_vecs d)) d [])))) (fst (def_all d (map (fun gv => v_name (snd gv)) (all_vecs d)) d [])) /\
-                    d_name (fst (def_all d (map (fun gv => v_name (snd gv)) (all_vecs d)) d [])) = d_name d).
+                    d_name (fst (def_all d (map (fun gv => v_name (snd gv)) (all_vecs d)) d [])) = d_name d /\
+                    Forall (fun m => exists vn, about (d_name d) vn m) (pubs (snd (def_all d (map (fun gv => v_name (snd gv)) (all_vecs d)) d [])))).
       { pose proof (getprops_all d None Q Dn) as GA. unfold from_client in GA.
         assert (str_eqb (mk (getprops None None)) (s2l "getProperties") = true) as E1 by reflexivity. rewrite E1 in GA.
         rewrite lookup_name_getprops in GA. rewrite GA. cbn [fst snd].
         rewrite pubs_defs.
         destruct (redefine_many false d (all_vecs d) mi Sw Dn (fun gv H => Dv (fst gv) (snd gv) ltac:(destruct gv; exact H))) as (A & B & C).
-        split; [exact D|]. split; [|reflexivity]. constructor; [exact A| |].
-        - intros g v Hin. exact (B (g, v) Hin).
-        - intros vn Hne. destruct (in_dec (list_eq_dec N.eq_dec) vn (names_of d)) as [Hin|Hnin]; [exact Hin|].
-          apply So. rewrite C in Hne; assumption. }
+        split; [exact D|]. split; [|split; [reflexivity|]].
+        - constructor; [exact A| |].
+          + intros g v Hin. exact (B (g, v) Hin).
+          + intros vn Hne. destruct (in_dec (list_eq_dec N.eq_dec) vn (names_of d)) as [Hin|Hnin]; [exact Hin|].
+            apply So. rewrite C in Hne; assumption.
+        - apply Forall_forall. intros m0 Hm. apply in_flat_map in Hm. destruct Hm as (gv & _ & Hm). exists (v_name (snd gv)).
+          pose proof (seg_about false d gv) as SA. rewrite Forall_forall in SA. exact (SA m0 Hm). }
       destruct (lookup (s2l "name") (ma m)) as [n|]; [|exact All].
       destruct n as [|c0 n0]; [exact All|].
-      apply on_vec_synced; try assumption; [intros; apply publish_def_name|].
+      apply OV. apply on_vec_synced; try assumption; [intros; apply publish_def_name|].
       intros g v mi' Hin Hn W' E'. destruct (Dv g v Hin). apply define_only_ok; auto.
-    + destruct (kind_of_new (mk m)) as [k|]; [|cbn [fst snd pubs flat_map feed fold_left]; auto].
-      destruct (lookup (s2l "name") (ma m)) as [n|]; [|cbn [fst snd pubs flat_map feed fold_left]; auto].
-      apply on_vec_synced; try assumption.
+    + destruct (kind_of_new (mk m)) as [k|]; [|cbn [fst snd pubs flat_map feed fold_left]; split; [exact D|split; [exact S|split; [reflexivity|constructor]]]].
+      destruct (lookup (s2l "name") (ma m)) as [n|]; [|cbn [fst snd pubs flat_map feed fold_left]; split; [exact D|split; [exact S|split; [reflexivity|constructor]]]].
+      apply OV. apply on_vec_synced; try assumption.
       * intros g v. destruct (vkind_eqb k (v_kind v)); [apply apply_children_name|reflexivity].
       * intros g v mi' Hin Hn W' E'. destruct (Dv g v Hin). destruct (vkind_eqb k (v_kind v)); [apply apply_children_ok; auto|apply noop_ok; auto].
 Qed.
@@ -976,7 +990,7 @@ Theorem history_synced ops : forall d mi,
 Proof.
   induction ops as [|o r IH]; intros d mi D S T.
   - cbn. auto.
-  - destruct T as [T1 T2]. cbn [run]. destruct (step_synced d o mi D S T1) as (D1 & S1 & N1).
+  - destruct T as [T1 T2]. cbn [run]. destruct (step_synced d o mi D S T1) as (D1 & S1 & N1 & _).
     destruct (step d o) as [d1 tr] eqn:Es. cbn [fst snd] in *.
     destruct (IH d1 (feed mi (pubs tr)) D1 S1 T2) as (D2 & S2 & N2).
     destruct (run d1 r) as [d2 trs]. cbn [fst snd List.concat] in *.
